@@ -64,6 +64,9 @@ class World:
 
     # ---- construction (through the analysed constructors and validators)
     def items(self, letter, n=None):
+        if letter in getattr(self, "numeric_text_letters", ()):
+            # labels that are TEXT but read like numbers (years kept as strings): "2020", "2021", ...
+            return [str(2020 + j) for j in range(n if n is not None else self.lengths[letter])]
         return [f"{letter}{j}" for j in range(n if n is not None else self.lengths[letter])]
 
     def dim(self, letter, n=None, fresh=False):
